@@ -247,6 +247,8 @@ UNITS.append(Unit("C12", "jsonargparse._signatures:SignatureArguments._add_signa
 import dataclasses  # noqa: E402
 from contracts.c17 import UNITS as _C17_UNITS  # noqa: E402
 UNITS += [dataclasses.replace(u, prop="C12") for u in _C17_UNITS if u.target.endswith("handle_subcommands")]
+# _ActionSubCommands.__call__: the component named on the command line is the one that is run, also when a --config given before named another one
+UNITS += [dataclasses.replace(u, prop="C12") for u in _C17_UNITS if u.target.endswith("_ActionSubCommands.__call__")]
 # get_subcommands: which method is the chosen one (the name given, else the first with a section - an empty section, a method without parameters, counts),
 # its parser, its section kept.  Not taken over: `no section of another subcommand remains` (refuted on the shipped code for one case: C17 known finding)
 from contracts.share import without_clauses  # noqa: E402
